@@ -72,6 +72,31 @@ CHECKS.update({
         note="Rewrites are trusted to break the named rule only. Exhaustive per generated document, documents sampled."),
 })
 
+CHECKS.update({
+    "C03": dict(
+        level="exploration", design="DESIGN.md section 5 C03",
+        technique="deterministic simulation with value-corruption faults at the resolver seam; schema-conformance invariant on every response",
+        text="1..all positions of a generated request (resolver results, list items, data read by default resolvers) are replaced "
+             "by values from an adversarial universe; under seeded schedules the engine must return, the response must be "
+             "JSON-serialisable and conform to schema + selection, untouched parts must equal the reference, and nulls replacing "
+             "supplied values must be explained by errors.",
+        note="Off-type coercions the spec allows are only checked structurally."),
+    "C04": dict(
+        level="exploration", design="DESIGN.md section 5 C04",
+        technique="seeded search over (variable types, defaults, mutated JSON values) executed in the simulator; oracle = reference CoerceVariableValues + event-log check that nothing ran on refusal; weak schedule dimension (DESIGN.md section 2)",
+        text="Variable definitions over every input type and wrapper nesting, JSON values mutated at random depth from a borderline "
+             "pool; the reference CoerceVariableValues decides accept / reject; on reject nothing may run and every offending "
+             "variable must be reported, on accept resolvers must observe exactly the coerced values.",
+        note="Integral floats for Int/ID accept either verdict."),
+    "C05": dict(
+        level="exploration", design="DESIGN.md section 5 C05",
+        technique="seeded metamorphic search (literal / variable / nested variable / default spellings of one value) executed in the simulator; oracle = reference CoerceArgumentValues + equality of recorded argument dictionaries; weak schedule dimension",
+        text="One value is written as literal, variable, variable nested in list/object literals, identical schema default, "
+             "omitted and null in aliases of one request, next to a sibling whose non-null argument receives a runtime null; "
+             "recorded argument dictionaries must equal the reference and each other, and the failing sibling must fail alone.",
+        note="Directive-argument positions are covered by C13's machinery."),
+})
+
 NOT_APPLICABLE = {
     "C10": "pure synchronous functions of one value (scalar coercion laws): no schedule, clock, fault, interleaving or history "
            "for a simulator to control; deciding them is boundary-value enumeration, a different technique (DESIGN.md section 2)",
